@@ -24,6 +24,9 @@ type Env[E algebra.PrimeGroupElement[E, S], S algebra.PrimeFieldElement[S]] inte
 	Point(name string) E
 	// Const returns a concrete field element.
 	Const(v *big.Int) S
+	// Drawn returns the field element that Field.Random yields (or yielded) when reading the named
+	// stream at the given byte offset: the symbolic variable itself, or its model value.
+	Drawn(reader string, offset int) S
 	// Reader returns the named arbitrary random stream.
 	Reader(name string) io.Reader
 	// Predicates over elements.
@@ -37,6 +40,9 @@ type Env[E algebra.PrimeGroupElement[E, S], S algebra.PrimeFieldElement[S]] inte
 	Reach(id string)
 	// SetActor labels the party currently executing (reader-discipline monitor).
 	SetActor(a string)
+	// AssumeDrawsNonZero: freshly sampled random elements are assumed non-zero from now on
+	// (genericity assumption used by protocol-level harnesses, see symalg.Run.AssumeDrawsNonZero).
+	AssumeDrawsNonZero()
 	// Symbolic reports whether values are symbolic (some harness clauses only make sense then).
 	Symbolic() bool
 }
@@ -51,13 +57,15 @@ func (e *SymEnv) Group() algebra.PrimeGroup[*symalg.G, *symalg.F] { return e.R.G
 func (e *SymEnv) Scalar(name string) *symalg.F                    { return e.R.Scalar(name) }
 func (e *SymEnv) Point(name string) *symalg.G                     { return e.R.Point(name) }
 func (e *SymEnv) Const(v *big.Int) *symalg.F                      { return e.R.ConstF(v) }
+func (e *SymEnv) Drawn(reader string, off int) *symalg.F          { return e.R.Drawn(reader, off) }
 func (e *SymEnv) Reader(name string) io.Reader                    { return e.R.Reader(name) }
-func (e *SymEnv) EqF(a, b *symalg.F) symalg.Pred                  { return symalg.EqF(a, b) }
-func (e *SymEnv) EqG(a, b *symalg.G) symalg.Pred                  { return symalg.EqG(a, b) }
+func (e *SymEnv) EqF(a, b *symalg.F) symalg.Pred                  { return symalg.EqFKeep(a, b) }
+func (e *SymEnv) EqG(a, b *symalg.G) symalg.Pred                  { return symalg.EqGKeep(a, b) }
 func (e *SymEnv) Assume(p symalg.Pred)                            { e.R.Assume(p) }
 func (e *SymEnv) Valid(id string, p symalg.Pred) bool             { return e.R.Valid(id, p) }
 func (e *SymEnv) Witness(id string, p symalg.Pred) bool           { ok, _ := e.R.Witness(id, p); return ok }
 func (e *SymEnv) Check(id string, c bool, msg string) bool        { return e.R.Check(id, c, msg) }
 func (e *SymEnv) Reach(id string)                                 { e.R.Reach(id) }
 func (e *SymEnv) SetActor(a string)                               { e.R.SetActor(a) }
+func (e *SymEnv) AssumeDrawsNonZero()                             { e.R.AssumeDrawsNonZero() }
 func (e *SymEnv) Symbolic() bool                                  { return !e.R.IsConcrete() }
